@@ -51,7 +51,11 @@ func refDefaultNewNickOK(in, out string) string {
 func nickRun(e *Env) {
 	g := G{e.S}
 	track := g.Bool()
-	genKind := g.W(5, 2, 1, 1)
+	genKind := g.W(5, 2, 1, 1, 1)
+	// (the last one keeps state: a fallback list walked by a counter.  What it
+	// derives from a refused nick is whatever it returned when it was asked)
+	statefulN := 0
+	derived := map[string][]string{}
 	gens := []func(string) string{nil,
 		func(s string) string { return s + "^" },
 		func(s string) string { return s }, // a generator that gives up: returns its input
@@ -60,12 +64,19 @@ func nickRun(e *Env) {
 				return s[:len(s)-1]
 			}
 			return s + "x"
+		},
+		func(s string) string {
+			statefulN++
+			out := fmt.Sprintf("alt%d%s", statefulN, s[:1])
+			derived[s] = append(derived[s], out)
+			return out
 		}}
 	gen := gens[genKind]
 	genRef := gen
 	if genRef == nil {
 		genRef = client.DefaultNewNick
 	}
+	stateful := genKind == 4
 	nickAlpha := "abcxyzABCXYZ0189_[]{}|`^-\\"
 	want := g.Str(nickAlpha, 1, 9)
 	if want[0] >= '0' && want[0] <= '9' || want[0] == '-' {
@@ -100,7 +111,7 @@ func nickRun(e *Env) {
 	for i := 0; i < nEvents; i++ {
 		evs = append(evs, ev{g.W(3, 3, 3, 3, 1), g.Intn(1000)})
 	}
-	e.Notef("track=%v generator=%s requested=%q 433-before-welcome=%d welcome=%s events=%d", track, []string{"default", "append ^", "identity", "shorten"}[genKind], want, pre433,
+	e.Notef("track=%v generator=%s requested=%q 433-before-welcome=%d welcome=%s events=%d", track, []string{"default", "append ^", "identity", "shorten", "stateful fallback list"}[genKind], want, pre433,
 		[]string{"same nick", "truncated", "unrelated", "other letter case"}[welcomeDifferent], nEvents)
 
 	var serverNick string // the nick the server currently uses for the client ("" before the welcome)
@@ -164,6 +175,16 @@ func nickRun(e *Env) {
 	}
 	expectNick := func(refused string, where string) (string, bool) {
 		ln, ok := next(10 * time.Minute)
+		if stateful {
+			e.Check()
+			for _, d := range derived[refused] {
+				if ok && ln == "NICK "+d {
+					return d, true
+				}
+			}
+			e.Violation("collision-answer", "%s: nick %q was refused; the client answered %q, which is none of the nicks the configured generator returned for it (%q)", where, refused, ln, derived[refused])
+			return "", false
+		}
 		wantLine := "NICK " + genRef(refused)
 		e.Check()
 		if !ok || ln != wantLine {
@@ -330,6 +351,9 @@ func nickRun(e *Env) {
 						if o == n {
 							return false
 						}
+					}
+					if stateful {
+						break // its nicks (altN...) are fresh by construction; asking it would advance it
 					}
 					n = genRef(n)
 				}
@@ -603,8 +627,9 @@ func regRun(e *Env) {
 	}
 	nick := g.Str(alnum[:52], 1, 9)
 	ident := []string{"", "ident", "a"}[g.Intn(3)]
-	name := []string{"", "Real Name", "x", "name with : colon"}[g.Intn(4)]
-	pass := []string{"", "", "secret", "p:w", "with space"}[g.Intn(5)]
+	// (free text is sent as configured, blanks at its end included)
+	name := []string{"", "Real Name", "x", "name with : colon", "Trailing Blank ", "tab at the end\t"}[g.Intn(6)]
+	pass := []string{"", "", "secret", "p:w", "with space", "blank at the end "}[g.Intn(6)]
 	capNeg := g.Pct(30)
 	sslMode := g.W(7, 1, 2) // 0 plain, 1 SSL with nothing behind the socket (handshake fails), 2 SSL with a real TLS server
 	ssl := sslMode != 0
@@ -670,7 +695,8 @@ func regRun(e *Env) {
 	toks := []tokT{{":tok", "tok"}, {":with space", "with space"}, {"plain", "plain"}, {":", ""}, {"::colon", ":colon"}, {":a :b", "a :b"},
 		{":" + strings.Repeat("L", 480), strings.Repeat("L", 480)}, {":12345", "12345"},
 		{":" + strings.Repeat("M", 507), strings.Repeat("M", 507)}, {":" + strings.Repeat("N", 600) + " end", strings.Repeat("N", 600) + " end"},
-		{":" + strings.Repeat("O", 5000), strings.Repeat("O", 5000)}}
+		{":" + strings.Repeat("O", 5000), strings.Repeat("O", 5000)},
+		{":abc ", "abc "}, {":   ", "   "}, {":tab\t", "tab\t"}, {": lead and trail  ", " lead and trail  "}}
 	slowServer := sslMode == 0 && g.Pct(40)
 	e.LinkPlan = func(l *simnet.Link) {
 		l.ChunkMode = g.Intn(4)
